@@ -144,3 +144,56 @@ ghost("RSsep", ["a", "b"],
       "a.slotSecondsUsed != b.slotSecondsUsed and a.slotTaskUsage != b.slotTaskUsage and "
       "forall(s, forall(t, implies(s in a.slotTaskUsage and t in b.slotTaskUsage, a.slotTaskUsage[s] != b.slotTaskUsage[t])))")
 ghost("LedgerSame", ["o"], "forall(s, used(o, s) == old(used(o, s)) and usage(o, s) == old(usage(o, s)))")
+
+# ---- task tree ------------------------------------------------------------------------------------------------------
+fields_of("TaskSet", _properties=List(Ref("Task")))
+fields_of("ResourceSet", _properties=List(Ref("Resource")))
+fields_of("Task", children=List(Ref("Task")), adoptees=List(Ref("Task")))
+fields_of("Resource", children=List(Ref("Resource")), adoptees=List(Ref("Resource")))
+REG.fields["Project.tasks"] = Ref("TaskSet")
+REG.fields["Project.resources"] = Ref("ResourceSet")
+
+
+def _set_iter(cls):
+    def hook(ex, lv, st):
+        from pyvc.loops import IterDom
+        fk = REG.field_key("_properties", cls)
+        lst = ex.h.get_field(st, lv.t, fk[0], fk[1])
+        return IterDom(ex.h.list_len(st, lst.t, lst.ty), lambda i, st2: ex.h.list_get(st2, lst.ty, lst.t, i), "list")
+    return hook
+
+
+klass("TaskSet", iter=_set_iter("TaskSet"), len="len(self._properties)")
+klass("ResourceSet", iter=_set_iter("ResourceSet"), len="len(self._properties)")
+
+
+def _node_setitem(ex, st, base, idxnode, v, node):
+    # node[("attr", scIdx)] = value
+    if not (isinstance(idxnode, ast.Tuple) and len(idxnode.elts) == 2 and isinstance(idxnode.elts[0], ast.Constant)):
+        raise Unsupported("node[...] = v with a non-literal attribute key", node)
+    name = idxnode.elts[0].value
+    ty = REG.attrs.get(name)
+    if ty is None:
+        raise Unsupported(f"attribute '{name}' has no declared type", node)
+    sc = ex.ev(idxnode.elts[1], st)
+    ex.h.set_attr(st, base.t, name, sc.t, ty, v)
+
+
+def _node_getitem(ex, st, base, idxnode, node):
+    if not (isinstance(idxnode, ast.Tuple) and len(idxnode.elts) == 2 and isinstance(idxnode.elts[0], ast.Constant)):
+        raise Unsupported("node[...] with a non-literal attribute key", node)
+    name = idxnode.elts[0].value
+    ty = REG.attrs.get(name)
+    if ty is None:
+        raise Unsupported(f"attribute '{name}' has no declared type", node)
+    sc = ex.ev(idxnode.elts[1], st)
+    return ex.h.get_attr(st, base.t, name, sc.t, ty)
+
+
+_leaf = ("spec", ["self"], "len(self.children) == 0 and len(self.adoptees) == 0")
+klass("Task", setitem=_node_setitem, getitem=_node_getitem, methods={"leaf": _leaf})
+klass("Resource", setitem=_node_setitem, getitem=_node_getitem, methods={"leaf": _leaf})
+ghost("Leaf", ["n"], "len(n.children) == 0 and len(n.adoptees) == 0")
+ghost("Sched", ["t", "sc"], "attr(t, 'scheduled', sc) is not None and some(attr(t, 'scheduled', sc))")
+ghost("TStart", ["t", "sc"], "attr(t, 'start', sc)")
+ghost("TEnd", ["t", "sc"], "attr(t, 'end', sc)")
